@@ -118,6 +118,10 @@ HandshakeOK(c, sv) == /\ c.err = ""
                       /\ ~sv.old                                  \* a server limited to TLS 1.1 is never accepted
                       /\ ServerVerified(c, sv)
                       /\ sv.wantsCert => c.clientCert # "none"
+\* The configuration in effect for a client built from the options is that configuration also after the transport went
+\* through KeepAliveTransport / Runtime.EnableConnectionReuse (how a Runtime uses TLSTransport / TLSClient).
+ThroughReuse(c) == c
+
 \* The configuration is a value fixed when TLSClientAuth returns: what happens to the certificate / key files
 \* afterwards (replaced by another valid pair, half rotated, removed) does not change what a later handshake presents.
 FileMutations == {"none", "replace", "half", "remove"}
